@@ -3,7 +3,7 @@
 #include "common.h"
 int verif_outcome;
 const char *ghost_text; u64 ghost_text_len; u64 ghost_j;
-#include "disasm_c.h"
+#include "disasm_c_contracts.h"
 #ifdef VERIF_REAL
 #include "dc_protos.h"
 #else
